@@ -8,6 +8,15 @@
 // checks: embedded leaf == configured leaf, first certificate == leaf, the
 // signature value verifies under the embedded leaf's public key.
 //
+// Two further dimensions (pgpstruct.go, names.go): OpenPGP certificate
+// STRUCTURES (primary key + signing / encryption / revoked subkeys) x which of
+// the certificate's keys, if any, the token holds x every OpenPGP signature
+// type, judged at packet level (the issuer a signature names is the key that
+// verifies it and is the token's key); and configurations with SEVERAL keys
+// whose names collide under a normalisation (case, surrounding blanks), every
+// name requested through the standalone and the server path: refused, or
+// served by exactly the key configured under that exact name.
+//
 // Development knobs (never needed by ./check):
 //
 //	C07_KNOWN_EXTRA=key1,key2   treat these violation keys as known findings
@@ -57,6 +66,7 @@ const (
 	clOrder      = "order"      // the right leaf is present but not (unambiguously) first: error or a correct artifact
 	clMismatch   = "mismatch"   // the certificate belongs to another key, or the token hands out another key
 	clNone       = "none"       // no certificate of this kind configured
+	clSubkey     = "subkey"     // OpenPGP: the token key is a subkey of the configured certificate: error or a signature issued by, and naming, that subkey
 )
 
 type keyCfg struct {
@@ -72,6 +82,7 @@ type keyCfg struct {
 	PGPKind   string `json:"pgp_mismatch_kind,omitempty"`
 	WantLeaf  string `json:"want_leaf,omitempty"` // fixture key whose leaf must be the embedded one
 	WantPGP   string `json:"want_pgp,omitempty"`
+	OnlyPGP   bool   `json:"only_openpgp_types,omitempty"` // run with the OpenPGP signature types only
 
 	KeyFile   string   `json:"key_file"`
 	X509File  string   `json:"x509_file,omitempty"`
@@ -218,6 +229,8 @@ func enumConfigs() []keyCfg {
 	add(keyCfg{Requested: "rsaA", X509Src: "none", X509Class: clNone, PGPSrc: "file-same-only", PGPClass: clConsistent, PGPFile: fx("rsaA.pgp"), WantPGP: "rsaA"})
 	add(keyCfg{Requested: "rsaA", Token: "verif", X509Src: "chain-leaf-first", X509Class: clConsistent, X509File: fx("rsaA.chain.crt"),
 		PGPSrc: "file-same-via-token", PGPClass: clConsistent, PGPFile: fx("rsaA.pgp"), WantPGP: "rsaA"})
+	// OpenPGP certificate structures (primary + subkeys) x which of its keys, if any, the token holds
+	pgpStructConfigs(add)
 	seen := map[string]bool{}
 	for _, c := range out {
 		if seen[c.ID] {
@@ -464,6 +477,11 @@ const (
 
 // signCase drives relic; returns the artifact path (and the content path for detached signatures).
 func signCase(c keyCfg, t sigType, hash crypto.Hash, via pathKind, dir string) (artifact, content string, err error, panicked string) {
+	return signWith(func() (*config.Config, error) { return c.build(via == pathServer), nil }, c.useName(), &c, t, hash, via, dir)
+}
+
+// signWith: the same for any configuration and key name (wc: the worker scenario, if any).
+func signWith(build func() (*config.Config, error), useName string, wc *keyCfg, t sigType, hash crypto.Hash, via pathKind, dir string) (artifact, content string, err error, panicked string) {
 	src := filepath.Join(M.Dir, "image-manifest.json")
 	if t.Input != "" {
 		src = filepath.Join(relicx.Packages, t.Input)
@@ -477,20 +495,23 @@ func signCase(c keyCfg, t sigType, hash crypto.Hash, via pathKind, dir string) (
 		artifact = in + ".sig"
 		content = in
 	}
-	cfg := c.build(via == pathServer)
-	relicx.Use(cfg)
 	defer func() {
 		if p := recover(); p != nil {
 			panicked = fmt.Sprintf("%v\n%s", p, debug.Stack())
 			err = fmt.Errorf("panic: %v", p)
 		}
 	}()
+	cfg, err := build()
+	if err != nil {
+		return
+	}
+	relicx.Use(cfg)
 	doStep := func(s step) error {
 		flags := url.Values{}
 		for k, v := range s.Flags {
 			flags.Set(k, v)
 		}
-		req := relicx.SignReq{SigType: s.SigType, Key: c.useName(), Hash: hash, Flags: flags, In: in, Out: artifact}
+		req := relicx.SignReq{SigType: s.SigType, Key: useName, Hash: hash, Flags: flags, In: in, Out: artifact}
 		if via == pathServer {
 			srv, err := server.New(cfg)
 			if err != nil {
@@ -500,7 +521,7 @@ func signCase(c keyCfg, t sigType, hash crypto.Hash, via pathKind, dir string) (
 			return relicx.SignViaServer(srv.Handler(), req)
 		}
 		if via == pathWorker {
-			return relicx.SignStandalone(cfg, c.workerToken(cfg), req)
+			return relicx.SignStandalone(cfg, wc.workerToken(cfg), req)
 		}
 		tok, err := open.Token(cfg, "tok", staticPrompt(p12Password))
 		if err != nil {
@@ -732,31 +753,47 @@ type workItem struct {
 	ci, ti int
 	hash   crypto.Hash
 	via    pathKind
+	names  bool // ci indexes nameCases() instead of the key configurations
 }
 
 func workList(cfgs []keyCfg, types []sigType, thorough bool) []workItem {
 	var out []workItem
+	// key-name phase: every name case x signature type (quick: one per mechanism) x {standalone, server}
+	for ni, nc := range nameCases() {
+		for ti, t := range types {
+			if t.Thorough && !thorough || !thorough && !nameTypesQuick[t.ID] {
+				continue
+			}
+			if t.Cert == "pgp" && nc.KeyA != "rsaA" {
+				continue // the EC fixture keys have no OpenPGP certificate
+			}
+			out = append(out, workItem{ni, ti, crypto.SHA256, pathStandalone, true}, workItem{ni, ti, crypto.SHA256, pathServer, true})
+		}
+	}
 	for ci, c := range cfgs {
 		for ti, t := range types {
 			if t.Thorough && !thorough {
 				continue
 			}
-			if c.Worker != "" {
-				out = append(out, workItem{ci, ti, crypto.SHA256, pathWorker})
+			if c.OnlyPGP && t.Cert != "pgp" {
 				continue
 			}
-			out = append(out, workItem{ci, ti, crypto.SHA256, pathStandalone})
+			if c.Worker != "" {
+				out = append(out, workItem{ci: ci, ti: ti, hash: crypto.SHA256, via: pathWorker})
+				continue
+			}
+			out = append(out, workItem{ci: ci, ti: ti, hash: crypto.SHA256, via: pathStandalone})
 			if !thorough {
 				continue
 			}
 			for _, h := range []crypto.Hash{crypto.SHA1, crypto.SHA384, crypto.SHA512} {
-				out = append(out, workItem{ci, ti, h, pathStandalone})
+				out = append(out, workItem{ci: ci, ti: ti, hash: h, via: pathStandalone})
 			}
 			// second path: the server's handler (token cache in between). The server
 			// opens file tokens without a password prompt, so PKCS#12 key files are
 			// only enumerated standalone.
 			if !c.IsP12 {
-				out = append(out, workItem{ci, ti, crypto.SHA256, pathServer})
+				out = append(out, workItem{ci: ci, ti: ti, hash: crypto.SHA256, via: pathServer})
 			}
 		}
 	}
@@ -830,6 +867,17 @@ func main() {
 		}
 		tmp, err := os.MkdirTemp(tmpBase, "c07-only-")
 		must(err)
+		for _, nc := range nameCases() {
+			for _, t := range types {
+				if nc.ID == parts[0] && (len(parts) < 2 || parts[1] == "" || t.ID == parts[1]) {
+					via := pathStandalone
+					if onlyPath != "" {
+						via = onlyPath
+					}
+					runNameCase(nc, t, via, tmp, true)
+				}
+			}
+		}
 		for _, c := range cfgs {
 			for _, t := range types {
 				if c.ID == parts[0] && (len(parts) < 2 || parts[1] == "" || t.ID == parts[1]) {
@@ -897,10 +945,15 @@ func main() {
 		}
 	}
 	si, sn := vlib.ShardIndex()
+	ncases := nameCases()
 	tmp, err := os.MkdirTemp(tmpBase, "c07-shard-")
 	must(err)
 	for wi, w := range work {
 		if wi%sn != si {
+			continue
+		}
+		if w.names {
+			runNameCase(ncases[w.ci], types[w.ti], w.via, tmp, false)
 			continue
 		}
 		if w.ci == 0 && w.hash == crypto.SHA256 && w.via == pathStandalone {
@@ -932,16 +985,21 @@ func finish(cfgs []keyCfg, types []sigType, nwork int) {
 	}
 	sort.Strings(tnames)
 	run.Set("bounds", map[string]any{
-		"key_configurations":    len(cfgs),
-		"configuration_classes": classes,
-		"signature_types":       tnames,
-		"cases":                 nwork,
-		"hashes":                map[bool][]string{false: {"sha256"}, true: {"sha256", "sha1", "sha384", "sha512"}}[run.Thorough()],
-		"paths":                 map[bool][]string{false: {"standalone", "worker-rpc (10 rotation scenarios)"}, true: {"standalone", "worker-rpc (10 rotation scenarios)", "server-handler (non-PKCS#12 configurations, sha256)"}}[run.Thorough()],
+		"key_configurations":             len(cfgs),
+		"configuration_classes":          classes,
+		"signature_types":                tnames,
+		"cases":                          nwork,
+		"openpgp_certificate_structures": pgpStructs(),
+		"openpgp_token_keys":             pgpTokenKeys,
+		"key_name_pairs":                 namePairs(),
+		"key_name_cases":                 len(nameCases()),
+		"hashes":                         map[bool][]string{false: {"sha256"}, true: {"sha256", "sha1", "sha384", "sha512"}}[run.Thorough()],
+		"paths":                          map[bool][]string{false: {"standalone", "worker-rpc (10 rotation scenarios)"}, true: {"standalone", "worker-rpc (10 rotation scenarios)", "server-handler (non-PKCS#12 configurations, sha256)"}}[run.Thorough()],
 	})
-	run.Rule("full product key configuration x signature type (thorough: x digest in {sha256,sha1,sha384,sha512}, plus the server-handler path with sha256): private key in {rsaA,rsaB,p256A,p256B,p384}; X.509 source in {leaf file, chain leaf-first, leaf-last, root-first, +unrelated root, +other leaf last/first, PKCS#7 bundle (PEM/DER/leaf-only/leaf-last, made by openssl), PKCS#12 (matching / key A leaf B / chain root-first / overridden by a file), certificate stored in the token (matching / other / leaf-last / stale), file of another key (same type, same curve other point, other curve, other algorithm), none, alias}; OpenPGP source in {matching, other key, other key type, two-entity keyrings binary/one armor/two armors in both orders, none}; token lookup in {requested key, a different key (same type / other type) for the requested name}; worker-RPC path (relic's worker client -> worker handler -> token cache -> scripted token, as used for pkcs11 tokens) with the key under the requested name {stable, replaced after the caller's lookup while the worker's cache entry is live / has expired, token honouring the caller's key id, token without key ids}. Separately: relic's signature builders called directly (pkcs7.SignatureBuilder with/without signed attributes, xmldsig.Sign, xmldsig.SignEnveloping) x 5 private keys x 7 certificate lists. distinct_nontrivial = cases whose configuration is inconsistent, order-variant, certificate-less, token-based or uses a certificate source other than the plain chain/PGP file")
+	run.Rule("full product key configuration x signature type (thorough: x digest in {sha256,sha1,sha384,sha512}, plus the server-handler path with sha256): private key in {rsaA,rsaB,p256A,p256B,p384}; X.509 source in {leaf file, chain leaf-first, leaf-last, root-first, +unrelated root, +other leaf last/first, PKCS#7 bundle (PEM/DER/leaf-only/leaf-last, made by openssl), PKCS#12 (matching / key A leaf B / chain root-first / overridden by a file), certificate stored in the token (matching / other / leaf-last / stale), file of another key (same type, same curve other point, other curve, other algorithm), none, alias}; OpenPGP source in {matching, other key, other key type, two-entity keyrings binary/one armor/two armors in both orders, none}; token lookup in {requested key, a different key (same type / other type) for the requested name}; worker-RPC path (relic's worker client -> worker handler -> token cache -> scripted token, as used for pkcs11 tokens) with the key under the requested name {stable, replaced after the caller's lookup while the worker's cache entry is live / has expired, token honouring the caller's key id, token without key ids}. OpenPGP certificate structures (generated from the RSA fixture keys, read back packet by packet): primary + {one signing subkey (both role assignments), one encryption-only subkey, two signing subkeys in both orders, encryption subkey + signing subkey, one revoked signing subkey} x token key in {rsaA, rsaB, a third RSA key, p256A} = the primary / the n-th subkey / none of the certificate's keys, x every OpenPGP signature type {deb, rpm, pgp detached, detached armor+text, clearsign, inline}: error, or every signature packet names (issuer key id, issuer fingerprint) the key packet that is the token's key and verifies under exactly that key packet. Key names: a configuration FILE (loaded with config.ReadFile) with two keys (second one direct or an alias of a third entry) whose names are {distinct control, equal up to ASCII case (initial / all), equal up to a leading / trailing space / trailing tab, case + blanks, Unicode case folding} x key material {rsaA+rsaB, p256A+p256B} x request in {name A, name B, an alias of A, an alias of B, an unconfigured name that normalises to both} x {standalone, server handler} x signature type (quick: ps, appmanifest, apk v2, xar, rpm, pgp clearsign; thorough: all): error, or leaf / key / OpenPGP issuer of every signature = those configured under exactly the requested name (unconfigured name: only self-consistency is judged). Separately: relic's signature builders called directly (pkcs7.SignatureBuilder with/without signed attributes, xmldsig.Sign, xmldsig.SignEnveloping) x 5 private keys x 7 certificate lists. distinct_nontrivial = cases whose configuration is inconsistent, order-variant, certificate-less, token-based or uses a certificate source other than the plain chain/PGP file")
 	run.Assume("canonical bytes of XML-DSig SignedInfo are taken from relic's xmldsig.SerializeCanonical (canonicalisation is C19's subject); digest and RSA/ECDSA verification over them are the harness's (Go crypto)")
-	run.Assume("OpenPGP packets are read and hashed with ProtonMail go-crypto's packet layer (PublicKey.VerifySignature), not with relic's pgptools; the key an OpenPGP signature 'embeds' is the issuer it names")
+	run.Assume("OpenPGP packets are read and hashed with ProtonMail go-crypto's packet layer (PublicKey.VerifySignature), not with relic's pgptools; the key an OpenPGP signature 'embeds' is the issuer it names (issuer key id subpacket, else issuer fingerprint; when both are present they must name one key); it is verified under exactly that key packet, primary or subkey, without applying any usage-flag, revocation or key-selection policy; inline messages are read packet by packet (compressed / one-pass / literal / signature)")
+	run.Assume("whether relic accepts a token key that is a SUBKEY of the configured OpenPGP certificate is not judged (the unchanged tree refuses it): only that an emitted signature names and verifies under the token's key. A requested key name that is not configured but equals a configured one after case folding / trimming may be refused or served: only self-consistency of the artifact is judged")
 	run.Assume("a scripted token answers a lookup with the configuration entry of the requested name (as every relic token does); a token that returns another key together with that key's own certificate is indistinguishable from a correct lookup and is not enumerated")
 	run.Assume("in the worker-RPC scenarios the scripted token stands for relic's pkcs11 token: it resolves keys by the configured name only and ignores the key id passed in the request context (as token/p11token/key.go does); the cache lifetime is relic's default (600 s) and is run out on a virtual clock (token/tokencache's time import rewritten to verif/shim/vtime)")
 	run.Assume("for CMS only the signature value is judged (signed attributes re-tagged as SET, or the content when there are none): messageDigest/content binding is C01/C02's subject")
